@@ -10,6 +10,7 @@ package simhost
 
 import (
 	"bytes"
+	"context"
 	"fmt"
 	"net"
 	"time"
@@ -64,6 +65,11 @@ type Opts struct {
 	UpgraderOpts []tptu.Option
 	TCPOpts      []tcp.Option
 
+	// Limited marks raw connections as limited (as the circuit transport does for relayed ones): the
+	// upgrader copies the raw connection's Stat() into the upgraded connection. Applied to inbound
+	// connections (remote = the peer's source address) and outbound ones (remote = the dialled address).
+	Limited func(remote net.Addr) bool
+
 	WithHost bool // build a basic host on top of the swarm
 	HostOpts *basichost.HostOpts
 }
@@ -85,8 +91,68 @@ type Node struct {
 // Transport is the real TCP transport with Listen redirected to simnet.
 type Transport struct {
 	*tcp.TcpTransport
-	net *simnet.Net
-	up  transport.Upgrader
+	net     *simnet.Net
+	up      transport.Upgrader
+	rcmgr   network.ResourceManager
+	dialer  *simnet.Dialer
+	limited func(remote net.Addr) bool
+}
+
+// limitedConn is a raw connection that reports itself as limited.
+type limitedConn struct{ manet.Conn }
+
+func (limitedConn) Stat() network.ConnStats {
+	return network.ConnStats{Stats: network.Stats{Limited: true}}
+}
+
+type limitedListener struct {
+	manet.Listener
+	limited func(remote net.Addr) bool
+}
+
+func (l *limitedListener) Accept() (manet.Conn, error) {
+	c, err := l.Listener.Accept()
+	if err != nil {
+		return nil, err
+	}
+	if na, err := manet.ToNetAddr(c.RemoteMultiaddr()); err == nil && l.limited(na) {
+		return limitedConn{c}, nil
+	}
+	return c, nil
+}
+
+// Dial / DialWithUpdates: addresses the Limited predicate selects are dialled here (same steps as the
+// TCP transport's own dial: connection scope, raw dial, upgrade) so that the raw connection can carry
+// the limited mark; everything else goes through the real TCP transport.
+func (t *Transport) Dial(ctx context.Context, raddr ma.Multiaddr, p peer.ID) (transport.CapableConn, error) {
+	return t.DialWithUpdates(ctx, raddr, p, nil)
+}
+
+func (t *Transport) DialWithUpdates(ctx context.Context, raddr ma.Multiaddr, p peer.ID, updates chan<- transport.DialUpdate) (transport.CapableConn, error) {
+	na, err := manet.ToNetAddr(raddr)
+	if t.limited == nil || err != nil || !t.limited(na) {
+		return t.TcpTransport.DialWithUpdates(ctx, raddr, p, updates)
+	}
+	scope, err := t.rcmgr.OpenConnection(network.DirOutbound, true, raddr)
+	if err != nil {
+		return nil, err
+	}
+	if err := scope.SetPeer(p); err != nil {
+		scope.Done()
+		return nil, err
+	}
+	nc, err := t.dialer.DialContext(ctx, "tcp", na.String())
+	if err != nil {
+		scope.Done()
+		return nil, err
+	}
+	mc, err := manet.WrapNetConn(nc)
+	if err != nil {
+		nc.Close()
+		scope.Done()
+		return nil, err
+	}
+	return t.up.Upgrade(ctx, t, limitedConn{mc}, network.DirOutbound, p, scope)
 }
 
 func (t *Transport) Listen(laddr ma.Multiaddr) (transport.Listener, error) {
@@ -106,6 +172,9 @@ func (t *Transport) Listen(laddr ma.Multiaddr) (transport.Listener, error) {
 	if err != nil {
 		l.Close()
 		return nil, err
+	}
+	if t.limited != nil {
+		mal = &limitedListener{Listener: mal, limited: t.limited}
 	}
 	return t.up.UpgradeGatedMaListener(t, t.up.GateMaListener(mal)), nil
 }
@@ -187,7 +256,7 @@ func New(n *simnet.Net, o Opts) (*Node, error) {
 		nd.closePS()
 		return nil, err
 	}
-	nd.Tpt = &Transport{TcpTransport: tt, net: n, up: up}
+	nd.Tpt = &Transport{TcpTransport: tt, net: n, up: up, rcmgr: nd.Rcmgr, dialer: d, limited: o.Limited}
 	if err := sw.AddTransport(nd.Tpt); err != nil {
 		sw.Close()
 		nd.closePS()
